@@ -330,3 +330,174 @@ def check_apply_transform(repo: Repo, rep: Report, rule: str):
         rep.fail(rule, F, "apply_transform(Affine2D(a..f))", f"{len(probs)} deviations; first: {probs[0] if probs else 'no outcome'}", st, st.functions.get("SVGShape.apply_transform"))
     else:
         rep.ok(rule, F, f"{n} paths: commands mapped through the engine with (a, b, c, d, e, f); degenerate affine -> M0,0; receiver untouched, paint kept", True)
+
+
+def check_stroke(repo: Repo, rep: Report, rules: Dict[str, str]):
+    """svg_pathops.stroke interpreted against the engine model.  rules: 'args' (every parameter reaches the stroker under
+    its own name, cap/join keywords map to the same-named Skia members, unknown keywords raise), 'post' (conics converted
+    at the caller's tolerance, simplify(fix_winding=True), documented fallback to the unsimplified outline)"""
+    from sa.poly import RF
+    po = repo["svg_pathops"]
+    F = "svg_pathops.stroke"
+    rep.saw(F)
+    fn = closure_of(repo, "svg_pathops", "stroke")
+    probs: Dict[str, List[tuple]] = {"args": [], "post": []}
+    n = 0
+    W, M, T, O = RF.sym("width"), RF.sym("miter"), RF.sym("tol"), RF.sym("offset")
+    dash = [RF.sym("d0"), RF.sym("d1")]
+    for cap in ("butt", "round", "square"):
+        for join in ("miter", "round", "bevel"):
+            for fail in ((), ("simplify",)):
+                outs, box = _run(repo, fn, lambda: ([_cmds(2), cap, join, W, M, T], ), {"dash_array": list(dash), "dash_offset": O}, fail=set(fail)) if False else \
+                    _run(repo, fn, lambda: [_cmds(2), cap, join, W, M, T], {"dash_array": list(dash), "dash_offset": O}, fail=set(fail))
+                for o in outs:
+                    n += 1
+                    case = f"stroke(cap={cap}, join={join}{', simplify failing' if fail else ''})"
+                    if o.raised:
+                        probs["post" if fail else "args"].append((F, f"{case} raises {o.raised} ({o.raise_msg})" + ("; the documented behaviour is to fall back to the unsimplified outline" if fail else "")))
+                        continue
+                    res = _result(o.value, box["it"].iterate)
+                    if not isinstance(res, SkPath):
+                        probs["args"].append((F, f"{case} returns {res!r}"[:200]))
+                        continue
+                    calls = res.calls
+                    st = [c for c in calls if c[0] == "stroke"]
+                    want = (repr(W), f"LineCap.{cap.upper()}_CAP", f"LineJoin.{join.upper()}_JOIN", repr(M), repr(dash), repr(O))
+                    got = tuple(repr(x) for x in st[0][1]) if len(st) == 1 else None
+                    if got != want or (st and st[0][2]):
+                        probs["args"].append((F, f"{case}: the stroker is called with {got}{st[0][2] if st and st[0][2] else ''}; expected (width, cap, join, miterlimit, dash array, dash offset) = {want}"))
+                    if tuple(res.verbs) != tuple((BUILDER[c], tuple(a)) for c, a in _cmds(2)):
+                        probs["args"].append((F, f"{case}: the stroker is not given the caller's commands"))
+                    cq = [c for c in calls if c[0] == "conics"]
+                    if len(cq) != 1 or [repr(x) for x in cq[0][1]] != [repr(T)]:
+                        probs["post"].append((F, f"{case}: conics are converted with {cq}; the caller's tolerance is expected, once"))
+                    kinds = [c[0] for c in calls]
+                    if kinds[:2] != ["stroke", "conics"]:
+                        probs["post"].append((F, f"{case}: engine calls are {kinds}; stroke, then conic conversion, then simplify"))
+                    if not fail and not res.normalized:
+                        probs["post"].append((F, f"{case}: the outline is not simplified with fix_winding=True"))
+                    if fail and ("simplify" in kinds):
+                        probs["post"].append((F, f"{case}: after a failed simplify the half-simplified path is returned instead of the saved outline"))
+    for bad, what in ((("butt", "arcs"), "join"), (("flat", "miter"), "cap")):
+        outs, box = _run(repo, fn, lambda: [_cmds(2), bad[0], bad[1], W, M, T], {})
+        for o in outs:
+            if o.raised != "ValueError":
+                probs["args"].append((F, f"an unknown {what} keyword {'raises ' + o.raised if o.raised else 'is accepted'} (ValueError expected)"))
+    _report_stroke(rep, rules, probs, po, n)
+
+
+def _report_stroke(rep, rules, probs, mod, n):
+    what = {"args": "stroke parameters reach the engine", "post": "post-processing of the outline"}
+    for k, rid in rules.items():
+        if probs[k]:
+            F, msg = probs[k][0]
+            rep.fail(rid, F, what[k], f"{len(probs[k])} deviations; first: {msg}", mod, mod.functions.get("stroke"))
+        else:
+            rep.ok(rid, f"svg_pathops.stroke [{what[k]}]", f"{n} interpreted calls (3 caps x 3 joins, with and without a failing simplify) against the abstract skia-pathops model", True)
+
+
+def check_bounds(repo: Repo, rep: Report, rule: str):
+    """Bounding boxes: svg_pathops.bounding_box asks the engine for the tight bounds of the path built from the given
+    commands; SVGShape.bounding_box hands it the shape's own normalised commands and converts (x1,y1,x2,y2) to (x,y,w,h),
+    anew on every call (also after an in-place edit); SVG.bounding_box is the union over all shapes."""
+    from sa.poly import RF
+    from sa.sym import to_rf, explore
+    po, st, svg = repo["svg_pathops"], repo["svg_types"], repo["svg"]
+    rep.saw("svg_pathops.bounding_box", "svg_types.SVGShape.bounding_box", "svg.SVG.bounding_box")
+    # 1. engine request
+    fn = closure_of(repo, "svg_pathops", "bounding_box")
+    outs, box = _run(repo, fn, lambda: [_cmds(5)])
+    for o in outs:
+        v = o.value
+        if o.raised or not (isinstance(v, tuple) and len(v) == 2 and v[0] == "bounds" and isinstance(v[1], SkPath)):
+            rep.fail(rule, "svg_pathops.bounding_box", "tight bounds of the path", f"bounding_box returns {v!r} / raises {o.raised}: the engine's tight bounds (.bounds) of the path are expected"[:300], po, po.functions.get("bounding_box"))
+            return
+        p = v[1]
+        if tuple(p.verbs) != tuple((BUILDER[c], tuple(a)) for c, a in _cmds(5)) or any(c[0] in ("transform", "stroke", "simplify") for c in p.calls):
+            rep.fail(rule, "svg_pathops.bounding_box", "tight bounds of the path", "the bounds are not those of the path built from the caller's commands as they are", po, po.functions.get("bounding_box"))
+            return
+    rep.ok(rule, "svg_pathops.bounding_box", "asks the engine for .bounds (tight) of the path built from the caller's commands", True)
+    # 2. shape level: conversion and freshness
+    seen = []
+
+    def hooks(it):
+        install_path_hooks(it)
+        it.hooks[("svg_types", "SVGShape.as_cmd_seq")] = lambda i, a, k: ("cmds-of", repr(a[0].f.get("d")))
+
+        def bb(i, a, k):
+            seen.append(a[0])
+            n = len(seen)
+            return (RF.sym(f"x1_{n}"), RF.sym(f"y1_{n}"), RF.sym(f"x2_{n}"), RF.sym(f"y2_{n}"))
+        it.hooks[("svg_pathops", "bounding_box")] = bb
+
+    def body(it, a, k):
+        shape = a[0]
+        r1 = it.call(it.getattr(shape, "bounding_box"), [], {})
+        shape.f["d"] = PathData([("M", (9, 9)), ("L", (8, 8))])   # in-place edit
+        r2 = it.call(it.getattr(shape, "bounding_box"), [], {})
+        return (r1, r2)
+
+    from sa.sym import PyCallable
+    outs = explore(repo, PyCallable(body), [], fresh_args=lambda: ([Rec(ClassRef("svg_types", "SVGPath"), dict(_defaults(repo), d=PathData([("M", (1, 1)), ("L", (2, 2))])), True)], {}), setup=hooks)
+    F = "svg_types.SVGShape.bounding_box"
+    for o in outs:
+        if o.undecided:
+            raise AnalysisError(f"{F}: abstract machine cannot interpret this code: {o.undecided}")
+        if o.raised:
+            rep.fail(rule, F, "Rect(x1, y1, x2 - x1, y2 - y1)", f"raises {o.raised}", st, st.functions.get("SVGShape.bounding_box"))
+            return
+        r1, r2 = o.value
+        for n, r in ((1, r1), (2, r2)):
+            S = RF.sym
+            f = r.f if isinstance(r, Rec) else {}
+            good = f and to_rf(f["x"]).equals(S(f"x1_{n}")) and to_rf(f["y"]).equals(S(f"y1_{n}")) and to_rf(f["w"]).equals(S(f"x2_{n}") - S(f"x1_{n}")) and to_rf(f["h"]).equals(S(f"y2_{n}") - S(f"y1_{n}"))
+            if not good:
+                what = ("the box after an in-place edit is not recomputed from the current path data (a cached box went stale)" if n == 2 and len(seen) < 2
+                        else f"(x1,y1,x2,y2) of the engine is not converted to (x, y, x2-x1, y2-y1): {r!r}")
+                rep.fail(rule, F, "Rect(x1, y1, x2 - x1, y2 - y1)", what[:300], st, st.functions.get("SVGShape.bounding_box"))
+                return
+        if len(seen) != 2 or seen[0] == seen[1] or "M1,1" not in repr(seen[0]) or "M9,9" not in repr(seen[1]):
+            rep.fail(rule, F, "svg_pathops.bounding_box(self.as_cmd_seq())", f"the engine is asked about {seen}; the shape's own current command sequence is expected on every call", st, st.functions.get("SVGShape.bounding_box"))
+            return
+    rep.ok(rule, F, "engine asked about the shape's own current commands on every call (also after an in-place edit); result converted to (x, y, x2-x1, y2-y1)", True)
+
+
+def check_document_box(repo: Repo, rep: Report, rule: str):
+    from sa.dom import El
+    from sa.machine import make_svg, run, ok_outcomes
+    from sa.rules.sem import pd
+    svg = repo["svg"]
+    F = "svg.SVG.bounding_box"
+    boxes = {"a": (2, 3, 4, 5), "b": (-1, 4, 1, 10), "line": (0, 20, 30, 20), "c": (3, 0, 3.5, 1)}
+    want = (-1, 0, 31, 20)  # x, y, w, h of the union, including the horizontal line (an empty-area box still has extent)
+
+    def build():
+        kids = [El("path", {"id": nm, "d": pd(("M", (i, i)), ("L", (i + 1, i)))}, name=nm) for i, nm in enumerate(boxes)]
+        return ([make_svg(El("svg", {"viewBox": "0 0 10 10"}, [El("g", {}, kids[:2])] + kids[2:], name="root"))], {})
+
+    def extra(it):
+        names = list(boxes)
+
+        def bbox(i, a, k):
+            r = repr(a[0])
+            for idx, nm in enumerate(names):
+                if f"('M', ({idx}, {idx}))" in r:
+                    return boxes[nm]
+            raise Undecided("bounding box of an unknown shape")
+        it.hooks[("svg_pathops", "bounding_box")] = bbox
+
+    from sa.sym import Undecided
+    from fractions import Fraction
+    outs = ok_outcomes(run(repo, "SVG.bounding_box", build, setup_extra=extra), F)
+    for o in outs:
+        f = o.value.f if isinstance(o.value, Rec) else None
+        got = tuple(Fraction(str(f[k])) if not hasattr(f[k], "const_value") else f[k].const_value() for k in "xywh") if f else None
+        if o.raised or got != tuple(Fraction(str(v)) for v in want):
+            rep.fail(rule, F, "union of all shape boxes", f"the document box of shapes with boxes {boxes} is {got} (raises {o.raised}); the union of all of them, including the degenerate box of a horizontal line, is {want}",
+                     svg, svg.functions.get("SVG.bounding_box"))
+            return
+    empty = ok_outcomes(run(repo, "SVG.bounding_box", lambda: ([make_svg(El("svg", {"viewBox": "0 0 10 10"}, [], name="root"))], {}), setup_extra=extra), F)
+    if any(o.value is not None or o.raised for o in empty):
+        rep.fail(rule, F, "document without shapes", "a document without shapes has a bounding box / raises", svg, svg.functions.get("SVG.bounding_box"))
+        return
+    rep.ok(rule, F, "4 shapes (one in a group, one a horizontal line with an empty-area box): box = union of all; None for a document without shapes", True)
